@@ -671,7 +671,9 @@ def render_module(prog, mod, twin=False, order=None, skip=()):
             # a module-level modifier clone made right below the definition of its function (before whatever follows it)
             if al.get("early") and al["mod"] == mod and al["target"] == i:
                 parts.append("%s = %s.force_local()\n\n" % (al["name"], nd["name"]))
-    for al in prog["aliases"]:
+    # (module-level clones keep the version their function has at their line: they come last, below every other name
+    # of the module that their function may mention)
+    for al in sorted(prog["aliases"], key=lambda a_: a_.get("pclone") is not None or bool(a_.get("clone"))):
         if al.get("early"):
             continue
         if al["mod"] == mod and prog["nodes"][al["target"]]["name"] not in skip:
@@ -759,6 +761,10 @@ def cell_statements(old, new, desc, twin=False):
         else:
             src = "%s = %s\n" % (v["name"], var_literal(v))
         out.append((v["mod"], src, None))
+        # (a module-level clone that binds arguments keeps the version its function has when the statement runs: the
+        # statements that make such clones run after the variable has its new value, as in the module's own text)
+        late = [c for c in out if ".partial(" in c[1] and c[2] and str(c[2]).startswith(("pc_", "alias_")) and "def " not in c[1]]
+        out = [c for c in out if c not in late] + late
     return out
 
 
